@@ -243,6 +243,8 @@ def main():
                         sub = ":relocated" if cfg["reloc"] else ":not-relocated"
                         sub += ":with-greenhouses" if cfg["gh"] else ""
                     bad("%s:EqualsDocumented:%s%s" % (prop, name, sub), dict(where=label, month=i, got=float(got[i]), want=float(exp[name][i])))
+                    if name == "greenhouse":  # what the greenhouses yield on the cropland they take is part of the cropland balance (C09)
+                        bad("C09:EqualsDocumented:greenhouse", dict(where=label, month=i, got=float(got[i]), want=float(exp[name][i])))
                     if name == "crops":  # the crop series is also a calendar-aligned supply series (C08)
                         bad("C08:EqualsDocumented:crops%s" % sub, dict(where=label, month=i, got=float(got[i]), want=float(exp[name][i])))
             # stored food at the start (May)
